@@ -69,3 +69,14 @@ package llm
 //@   loop 2 update passed = store(prev(passed), prev(k), true)
 //@   loop 2 invariant k < pre(len(responseObj.Items)) && forall j in k+1..pre(len(responseObj.Items)) :: passed[j]
 //@   loop 1 invariant 0 <= i && i <= models.MaxHTTPRetries + 1 && attempts <= i
+
+// ---- C13: the data block handed to the model is the whole JSON document that was marshalled (commit message and
+// evidence), enclosed by the two nonce markers; nothing is cut out of it or appended to it on the way.
+//@ func buildModernPrompts
+//@   noframe
+//@   ghost enc string
+//@   ghost nonce string
+//@   call encoding/json.MarshalIndent update enc = bytesToString(result0)
+//@   call generateNonceFunc update nonce = result0
+//@   ensures [C13.envelope] result2 == nil ==> hasPrefix(result1, "### BEGIN DATA [" + nonce + "] ###\n" + enc + "\n### END DATA [" + nonce + "] ###")
+
